@@ -1464,6 +1464,7 @@ func ExistExpr(query *Query, current Map, expr *sqlparser.ExistsExpr, opts ...Ex
 	for i := 0; i < len(q.from); i++ {
 		item, ok := q.from[i].(Map)
 		if !ok {
+			q.wg.Wait()
 			return false, INVALID_TYPE.Extend(fmt.Sprintf("failed to build `EXIST` expression. expected an object but found %T", item))
 		}
 		merged := make(Map, len(item)+len(current))
@@ -1484,6 +1485,8 @@ func ExistExpr(query *Query, current Map, expr *sqlparser.ExistsExpr, opts ...Ex
 	}
 	array, ok := rs.([]any)
 	if !ok {
+		// the calls the nested query launched are awaited on this path as well
+		q.wg.Wait()
 		return false, INVALID_TYPE.Extend(fmt.Sprintf("failed to build `EXIST` expression. expected an array but found %T", array))
 	}
 	query.postProcessors = append(query.postProcessors, q.postProcessors...)
@@ -1503,6 +1506,10 @@ func FunExpr(query *Query, current Map, expr *sqlparser.FuncExpr, opts ...ExprOp
 		var err error
 		query.postProcessors = append(query.postProcessors, func() error {
 			slice, e := FuncArgReader(query, current, expr.Exprs)
+			// the arguments may have launched ASYNC calls: this runs after the
+			// query's own wait, so they are awaited here, also when the arguments
+			// are refused
+			query.wg.Wait()
 			if e == nil {
 				e = Guard(1, slice)
 			}
@@ -1510,9 +1517,6 @@ func FunExpr(query *Query, current Map, expr *sqlparser.FuncExpr, opts ...ExprOp
 				err = e
 				return e
 			}
-			// the argument may have launched ASYNC calls: this runs after the
-			// query's own wait, so they are awaited here
-			query.wg.Wait()
 			rs = slice[0]
 			return nil
 		})
